@@ -1336,3 +1336,60 @@ Lemma exp_arith_eq e attempt :
   generated_backoff_retry_after_status = 429 /\ generated_backoff_retry_after_unit = 1000000000 /\
   (forall ra, generated_backoff_retry_after_ok ra = (ra >? 0)).
 Proof. repeat split; reflexivity. Qed.
+
+(* ------------------------------------------------------------------ *)
+(* Refinement of the whole auth stack to the stateless specification *)
+
+Lemma round_trip_refines_spec_st p bd sc t st :
+  wf_body bd -> replayable bd -> s_rest st = bdata bd ->
+  let out := round_trip p None bd st sc t in
+  (o_res out, o_time out, attempts (o_trace out)) = spec_send p bd sc t.
+Proof.
+  intros Hwf Hrep Hst. unfold round_trip, spec_send.
+  destruct (rt_loop_spec p bd sc Hwf Hrep (rt_fuel p) 0%nat st t [] Hst) as (R & T & A).
+  cbn [skipn Z.of_nat app] in *. rewrite R, T, A.
+  destruct (spec_run p bd sc t 0 (rt_fuel p)) as [[r te] l]. reflexivity.
+Qed.
+
+Lemma rewind_replayable bd st :
+  wf_body bd -> replayable bd -> (bk bd = KNone \/ bk bd = KNoBody -> s_rest st = []) ->
+  exists st2, rewind bd st = RwOk st2 /\ s_rest st2 = bdata bd.
+Proof.
+  intros Hwf [H|H] Hs; rewrite rewind_eq; unfold rewind_closed; rewrite H.
+  - eexists; split; reflexivity.
+  - exists st. split; [reflexivity|]. rewrite Hs by (left; exact H). symmetry. apply Hwf. left. exact H.
+Qed.
+
+Lemma auth_do_tok_refines_spec p bd sc tb tsc :
+  wf_body bd -> replayable bd -> wf_body tb -> replayable tb ->
+  let a := auth_do_tok p None bd sc tb tsc in
+  (ak_res a, ak_time a, attempts (ak_first a), attempts (ak_token a), attempts (ak_second a))
+  = spec_auth p bd sc tb tsc.
+Proof.
+  intros Hwf Hrep Hwt Hrt. unfold auth_do_tok, spec_auth.
+  pose proof (round_trip_refines_spec_st p bd sc 0 (init_state bd) Hwf Hrep eq_refl) as E1. cbv zeta in E1.
+  destruct (round_trip_bodies_gen p None bd sc 0%nat (init_state bd) 0 Hwf eq_refl) as (_ & S1 & N1).
+  cbn [skipn Nat.add] in S1, N1.
+  set (o1 := round_trip p None bd (init_state bd) sc 0) in *.
+  destruct (spec_send p bd sc 0) as [[r1 t1] l1]. injection E1 as Er Et El. rewrite Er.
+  destruct (challenged r1); [|cbn [ak_res ak_time ak_first ak_token ak_second attempts]; congruence].
+  destruct (rewind_replayable bd (o_st o1) Hwf Hrep N1) as (st2 & Hrw & Hfresh).
+  destruct (bearer_challenged r1); cbn [negb orb].
+  - unfold fetch_token.
+    pose proof (round_trip_refines_spec_st p tb tsc (o_time o1) (init_state tb) Hwt Hrt eq_refl) as EK. cbv zeta in EK.
+    set (ok := round_trip p None tb (init_state tb) tsc (o_time o1)) in *.
+    rewrite <- Et. destruct (spec_send p tb tsc (o_time o1)) as [[kr kt] kl]. injection EK as Kr Kt Kl.
+    cbn [k_ok k_res k_trace k_time]. rewrite Kr.
+    destruct (token_ok kr).
+    + rewrite Hrw. cbn [ak_res ak_time ak_first ak_token ak_second].
+      pose proof (round_trip_refines_spec_st p bd (o_script o1) (o_time ok) st2 Hwf Hrep Hfresh) as E2. cbv zeta in E2.
+      rewrite S1, El, Kt in E2.
+      destruct (spec_send p bd (skipn (length l1) sc) kt) as [[r2 t2] l2]. injection E2 as R2 T2 L2.
+      rewrite <- Kt in *. congruence.
+    + cbn [ak_res ak_time ak_first ak_token ak_second attempts]. congruence.
+  - cbn [k_ok k_time k_trace]. rewrite Hrw. cbn [ak_res ak_time ak_first ak_token ak_second attempts].
+    pose proof (round_trip_refines_spec_st p bd (o_script o1) (o_time o1) st2 Hwf Hrep Hfresh) as E2. cbv zeta in E2.
+    rewrite S1, El, Et in E2.
+    destruct (spec_send p bd (skipn (length l1) sc) t1) as [[r2 t2] l2]. injection E2 as R2 T2 L2.
+    congruence.
+Qed.
